@@ -884,13 +884,13 @@ impl<'a, 'b> TryInto<AnnotationBuilder<'a>> for AnnotationCsv<'a> {
                         "",
                     ));
                 }
-                if self.targetkey.unwrap_or(Cow::Borrowed("")).find(";").is_some() {
+                if self.targetkey.as_deref().unwrap_or("").find(";").is_some() {
                     return Err(StamError::CsvError(
                         format!("Multiple target keys were specified, but without a complex selector"),
                         "",
                     ));
                 }
-                if self.targetdata.unwrap_or(Cow::Borrowed("")).find(";").is_some() {
+                if self.targetdata.as_deref().unwrap_or("").find(";").is_some() {
                     return Err(StamError::CsvError(
                         format!("Multiple target data were specified, but without a complex selector"),
                         "",
@@ -928,6 +928,22 @@ impl<'a, 'b> TryInto<AnnotationBuilder<'a>> for AnnotationCsv<'a> {
                     SelectorKind::DataSetSelector => {
                         let dataset = self.targetdataset;
                         SelectorBuilder::DataSetSelector(BuildItem::Id(dataset.to_string()))
+                    }
+                    SelectorKind::DataKeySelector => {
+                        let dataset = self.targetdataset;
+                        let key = self.targetkey.unwrap_or(Cow::Borrowed(""));
+                        SelectorBuilder::DataKeySelector(
+                            BuildItem::Id(dataset.to_string()),
+                            BuildItem::Id(key.to_string()),
+                        )
+                    }
+                    SelectorKind::AnnotationDataSelector => {
+                        let dataset = self.targetdataset;
+                        let data = self.targetdata.unwrap_or(Cow::Borrowed(""));
+                        SelectorBuilder::AnnotationDataSelector(
+                            BuildItem::Id(dataset.to_string()),
+                            BuildItem::Id(data.to_string()),
+                        )
                     }
                     _ => unreachable!(),
                 }
@@ -1059,7 +1075,7 @@ impl<'a, 'b> TryInto<AnnotationBuilder<'a>> for AnnotationCsv<'a> {
                         }
                         SelectorKind::DataKeySelector  => {
                             let dataset = targetdatasets.get(i).unwrap_or(targetdatasets.last().unwrap());
-                            let datakey = targetkeys.get(i).unwrap_or(targetkeys.last().unwrap());
+                            let datakey = targetkeys.get(i).or(targetkeys.last()).copied().unwrap_or("");
                             if dataset.is_empty() {
                                 return Err(StamError::CsvError(
                                 format!(
@@ -1072,7 +1088,7 @@ impl<'a, 'b> TryInto<AnnotationBuilder<'a>> for AnnotationCsv<'a> {
                         }
                         SelectorKind::AnnotationDataSelector  => {
                             let dataset = targetdatasets.get(i).unwrap_or(targetdatasets.last().unwrap());
-                            let data = targetdata.get(i).unwrap_or(targetdata.last().unwrap());
+                            let data = targetdata.get(i).or(targetdata.last()).copied().unwrap_or("");
                             if dataset.is_empty() {
                                 return Err(StamError::CsvError(
                                 format!(
